@@ -76,3 +76,57 @@ Proof.
   unfold file_eok, eager_in_file. rewrite forallb_forall. intros H (st & Hst & Hpos).
   eapply (proj2 (eok_pos (is_global f))); [exact Hpos|]. apply (H _ Hst).
 Qed.
+
+(* ---------------- the converse: the enumeration misses no position the walkers look at ---------------- *)
+Lemma expr_eok_of_pos G e0 : forall env0,
+  (forall env e, eager_in_expr env0 e0 env e -> eager_ok G env e = true) -> expr_eok G env0 e0 = true.
+Proof.
+  induction e0 using expr_ind'; intros env0 Hp; cbn [expr_eok]; try reflexivity.
+  - apply forallb_forall. intros x Hx. rewrite Forall_forall in H. apply (H x Hx). intros env e He. apply Hp. eapply EIE_list; eassumption.
+  - apply forallb_forall. intros x Hx. rewrite Forall_forall in H. apply (H x Hx). intros env e He. apply Hp. eapply EIE_set; eassumption.
+  - apply andb_true_iff. split; [apply Hp; apply EIE_lcomp_src|]. apply IHe0_1. intros env e He. apply Hp. apply EIE_lcomp_elem. exact He.
+  - apply andb_true_iff. split; [apply Hp; apply EIE_scomp_src|]. apply IHe0_1. intros env e He. apply Hp. apply EIE_scomp_elem. exact He.
+  - apply IHe0. intros env e He. apply Hp. apply EIE_scoped. exact He.
+  - apply forallb_forall. intros x Hx. rewrite Forall_forall in H. apply (H x Hx). intros env e He. apply Hp. eapply EIE_call; eassumption.
+Qed.
+
+Lemma block_eok_of_pos G body :
+  Forall (fun s => forall env0, (forall env e, eager_in_stmt G env0 s env e -> eager_ok G env e = true) -> stmt_eok G env0 s = true) body ->
+  forall env0, (forall env e, eager_in_block G env0 body env e -> eager_ok G env e = true) -> block_eok G env0 body = true.
+Proof.
+  unfold block_eok. induction 1 as [|s body Hs Hb IH]; intros env0 Hp; cbn [seq_eok]; [reflexivity|].
+  apply andb_true_iff. split.
+  - apply Hs. intros env e He. apply Hp. apply EIB_here. exact He.
+  - apply IH. intros env e He. apply Hp. apply EIB_later. exact He.
+Qed.
+
+Lemma stmt_eok_of_pos G s : forall env0,
+  (forall env e, eager_in_stmt G env0 s env e -> eager_ok G env e = true) -> stmt_eok G env0 s = true.
+Proof.
+  induction s using stmt_ind'; intros env0 Hp;
+    assert (Hex : forall e0, In e0 (stmt_exprs _) -> expr_eok G env0 e0 = true)
+      by (intros e0 Hin; apply expr_eok_of_pos; intros env' e' He'; apply Hp; eapply EIS_expr; eassumption);
+    cbn [stmt_exprs] in Hex; cbn [stmt_eok].
+  - apply andb_true_iff. split; [apply Hex; left; reflexivity|]. destruct v; cbn [var_eok]; [reflexivity|]. apply Hex. right. left. reflexivity.
+  - apply andb_true_iff. split; [apply Hex; left; reflexivity|]. destruct v; cbn [var_eok]; [reflexivity|]. apply Hex. right. left. reflexivity.
+  - apply andb_true_iff. split; [apply Hex; left; reflexivity|]. destruct v; cbn [var_eok]; [reflexivity|]. apply Hex. right. left. reflexivity.
+  - destruct v; cbn [var_eok]; [reflexivity|]. apply Hex. left. reflexivity.
+  - apply andb_true_iff. split; [apply Hex; left; reflexivity|]. apply forallb_forall. intros [name ae] Ha. cbn [attr_eok]. apply Hex. right.
+    apply in_map_iff. exists (Attr name ae). split; [reflexivity|exact Ha].
+  - apply andb_true_iff. split; apply Hex; [left|right; left]; reflexivity.
+  - rewrite !andb_true_iff. split; [split; apply Hex; [left|right; left]; reflexivity|]. apply forallb_forall. intros [name ae] Ha. cbn [attr_eok]. apply Hex.
+    right. right. apply in_map_iff. exists (Attr name ae). split; [reflexivity|exact Ha].
+  - apply andb_true_iff. split; [apply Hp; apply EIS_scan|]. apply forallb_forall. intros [[rxi body] al] Hin.
+    rewrite Forall_forall in H. apply (block_eok_of_pos G body (H _ Hin)). intros env' e' He'. apply Hp. eapply EIS_scan_arm; eassumption.
+  - apply forallb_forall. intros x Hx. apply Hex. exact Hx.
+  - apply forallb_forall. intros [[conds body] al] Hin. apply andb_true_iff. split.
+    + apply forallb_forall. intros c Hc. apply Hp. eapply EIS_if; eassumption.
+    + rewrite Forall_forall in H. apply (block_eok_of_pos G body (H _ Hin)). intros env' e' He'. apply Hp. eapply EIS_if_arm; eassumption.
+  - apply andb_true_iff. split; [apply Hp; apply EIS_for|]. apply (block_eok_of_pos G body H). intros env' e' He'. apply Hp. apply EIS_for_body. exact He'.
+Qed.
+
+Lemma file_eok_iff_pos f : file_eok f = true <-> forall env e, eager_in_file f env e -> eager_ok (is_global f) env e = true.
+Proof.
+  split; [intros H env e; apply file_eok_pos; exact H|]. intros Hp. unfold file_eok. apply forallb_forall. intros st Hst. unfold stanza_eok.
+  apply block_eok_of_pos; [apply Forall_forall; intros s _; apply stmt_eok_of_pos|]. intros env e He. apply Hp. exists st. split; assumption.
+Qed.
